@@ -103,7 +103,7 @@ def generate(R, tier, focus):
                 if k > 1 and form == 'str':
                     form = 'list'
             else:
-                k = R.randint(1, 4)
+                k = R.randint(1, 4) if R.random() > 0.07 else 0       # an empty list of statements keeps everything
                 sts = [gen_statement(R, events)[0] for _ in range(k)]
                 form = R.choice(('list', 'tuple', 'str')) if k == 1 else R.choice(('list', 'tuple'))
                 if k == 1 and R.random() < 0.6:
